@@ -124,3 +124,32 @@ for w, nw in (("383", 12), ("447", 14)):
       ["bi%s_next" % w], unwind=34, solver=["minisat", "kissat"], timeout={"quick": 600, "thorough": 1800})
 O("C19.bi383_max0", "C19", "h_C19b.c", "h_C19_bi383_max0",
   "bi383_max0: returns max(set U {0})", ["bi383_max0"], unwind=34, solver=["minisat", "kissat"])
+
+# ------------------------------------------------------------------ C18
+P("C18", level="proof",
+  level_text="Contracts on the real dt-strpf.c code: every valid instant 1901..2099 (date, date-time, with ms) printed by dt_strf / dt_strf_ical parses back to itself (all instants, one CBMC query each); duration parsing equals the ISO 8601 value for every spelling with up to 4 digits per component and any sign; the duration print/parse round trip is proved on named strata only (the printer divides a 64-bit value; wide division is undecidable for the installed back ends) and those are reported as bounded stand-ins.",
+  level_note="Trusted: CBMC semantics. Bounded: digits per duration component <= 4 (parser), strata of the duration round trip. Not covered: range_strp/range_strf, durations with a sub-second part (ISO form has no fraction; the printer drops it).",
+  not_covered=["duration round trip outside the strata (wide division in idiff_strf and ui32tostr)", "range_strp / range_strf", "sub-second parts of durations"])
+O("C18.dt.iso", "C18", "h_C18.c", "h_C18_dt_iso",
+  "dt_strp(dt_strf(i)) == i for every valid instant (date-only, whole-second, with ms), explicit and implicit length; buffer safety",
+  ["dt_strf", "dt_strp", "ui32tpstr"], unwind=8, solver=["minisat", "kissat"])
+O("C18.dt.ical", "C18", "h_C18.c", "h_C18_dt_ical",
+  "dt_strp(dt_strf_ical(i)) == i at whole-second resolution for every valid instant: no separators, with and without Z",
+  ["dt_strf_ical", "dt_strp", "ui32tpstr"], unwind=8, solver=["minisat", "kissat"])
+for lay in ("W", "D", "H", "M", "S", "HMS", "DH", "MS"):
+    for sg, sgn in ((0, ""), (1, "+"), (2, "-")):
+        nd = 4 if len(lay) == 1 else 2
+        defs = ["-DL_SIGN=%d" % sg, "-DNDIG=%d" % nd] + ["-DL_%s=%d" % (c, 1 if c in lay else 0) for c in "WDHMS"]
+        O("C18.idiff.strp.%s%s" % ({0: "u", 1: "p", 2: "n"}[sg], lay), ["C18", "C14"], "h_C18.c", "h_C18_idiff_strp",
+          "idiff_strp reads the spelling %sP.. with components %s (%d symbolic digits each, leading zeros allowed) as its ISO 8601 value in ms: 64-bit, sign honoured" % (sgn, lay, nd),
+          ["idiff_strp"], kind="bounded", bound="%d digits per component" % nd, defines=defs, unwind=8,
+          cbmc_flags=["--unwindset", "idiff_strp.0:6,idiff_strp.3:6,idiff_strp.1:3,idiff_strp.2:3,idiff_strp.4:3,idiff_strp.5:3,idiff_strp.6:3"],
+          solver=["minisat", "z3"], timeout={"quick": 600, "thorough": 1800})
+IDIFF_UW = ["--unwindset", "idiff_strp.0:7,idiff_strp.3:7,idiff_strp.1:3,idiff_strp.2:3,idiff_strp.4:3,idiff_strp.5:3,idiff_strp.6:3"]
+for name, unit, q, t in (("sec", 1000, 3599, 200000), ("min", 60000, 1439, 20000), ("hour", 3600000, 99, 9999), ("day", 86400000, 999, 99999)):
+    O("C18.idiff.roundtrip.%s" % name, ["C18", "C14"], "h_C18.c", "h_C18_idiff_roundtrip",
+      "idiff_strp(idiff_strf(d)) == d and the text is NUL-terminated within the buffer, on the stratum d = k*%d ms" % unit,
+      ["idiff_strf", "idiff_strp", "ui32tostr", "ilog10_ceil", "ilog2_ceil"], kind="bounded",
+      bound={"quick": "k = 0..%d (every multiple of %d ms)" % (q, unit), "thorough": "k = 0..%d (every multiple of %d ms)" % (t, unit)},
+      defines={"quick": ["-DRT_LO=0", "-DRT_HI=%d" % q, "-DRT_UNIT=%dLL" % unit], "thorough": ["-DRT_LO=0", "-DRT_HI=%d" % t, "-DRT_UNIT=%dLL" % unit]},
+      unwind=12, cbmc_flags=IDIFF_UW, solver=["minisat", "kissat"], timeout={"quick": 600, "thorough": 3600})
